@@ -319,8 +319,13 @@ def _sim_module(case, mod, out: dict, paths: set, pkgs: set) -> dict:
         ns[name] = {**info, "how": how, "static": static, "mod_origins": mod_origins, "nwild": nwild}
 
     carried = ("origin", "helper", "kind", "node", "defmod")
+    line_bound: set = set()  # names bound so far on the current physical line (statements joined with ';')
+    same_line: set = set()
     for index, stmt in enumerate(mod["body"]):
         t = stmt["t"]
+        if not stmt.get("join"):
+            line_bound = set()
+        before = {k: v["index"] for k, v in ns.items() if "index" in v}
         if t in ("class", "def", "val"):
             kind = "deco" if stmt.get("deco") else t
             bind(stmt["name"], {"depth": 0, "chain": [], "kind": kind, "node": stmt, "defmod": mod["path"], "index": index}, "local")
@@ -374,7 +379,11 @@ def _sim_module(case, mod, out: dict, paths: set, pkgs: set) -> dict:
                         bind(bound, info, "from")
                     elif stmt["mod"] in pkgs and sub in paths:
                         bind(bound, {"depth": 1, "chain": [], "origin": sub, "kind": "module", "index": index, "stmt": stmt}, "from")
-        elif t == "all":
+        if t == "from" and stmt["names"] == "*" and stmt.get("join"):
+            # a wildcard that is not the first statement of its line re-binds names bound earlier on that line
+            same_line |= {k for k, v in ns.items() if v.get("index") == index and v["how"] == "wild" and k in line_bound}
+        line_bound |= {k for k, v in ns.items() if v.get("index") == index and before.get(k) != index}
+        if t == "all":
             if stmt["op"] == "=":
                 has_all = True
                 all_items = []
@@ -415,6 +424,7 @@ def _sim_module(case, mod, out: dict, paths: set, pkgs: set) -> dict:
         "tainted_strict": {n for n, i in ns.items() if i["how"] == "wild" and i["static"] in ("from", "import", "local")},
         "dot_imported": dot_imported,
         "same_module_rebound": same_module,
+        "same_line_rebound": same_line,
         # `__all__` helper names (`from m import __all__ as h`) that are bound more than once, or not directly
         "helper_rebound": {h for h, i in ns.items() if i.get("helper") and (nbinds[h] > 1 or i["how"] != "from" or i["chain"])},
     }
@@ -497,6 +507,10 @@ def describe_labels(case, sim=None) -> tuple[bool, list[str]]:
                 labels.add("import-as" if st_.get("as") else "import-dotted")
             if st_.get("join"):
                 labels.add("semicolon-joined")
+                if st_["t"] == "from" and st_["names"] == "*":
+                    labels.add("semicolon-joined-wildcard")
+            if st_["t"] == "class" and any(x["t"] in ("from", "import") for x in st_.get("body", ())):
+                labels.add("class-body-import")
         if s["uncertain"]:
             labels.add("tolerance:submodule-of-wildcard-source")
     if n_wild:
@@ -553,13 +567,15 @@ def _pick_recent(draw, items: list):
     return items[max(a, b)]
 
 
-KNOWN_STEERING = ("stale-alias-after-wildcard-override", "dot-import-submodule-not-exposed", "wildcard-rebinding-same-module-skipped")
+KNOWN_STEERING = ("stale-alias-after-wildcard-override", "dot-import-submodule-not-exposed", "wildcard-rebinding-same-module-skipped",
+                  "same-line-wildcard-override")
 
 
 @st.composite
 def packages(draw, max_mods: int = 6, max_stmts: int = 6, allow_join: bool = False, all_forms: bool = True,
              class_bodies: bool = True, avoid: frozenset = frozenset(), on_excluded=None, wild_plain_only: bool = False,
-             deco_defs: bool = False, weights: tuple = (4, 7, 9, 10, 11), strict_taint: bool = False):
+             deco_defs: bool = False, weights: tuple = (4, 7, 9, 10, 11), strict_taint: bool = False,
+             self_names: bool = False, class_imports: bool = False):
     """Package models of profile `importable`. `avoid`: slugs of known findings to steer away from (by construction);
     `on_excluded(slug)` is called each time a choice is restricted because of one."""
     tree = draw(trees(2, max_mods))
@@ -590,15 +606,41 @@ def packages(draw, max_mods: int = 6, max_stmts: int = 6, allow_join: bool = Fal
         body = mod["body"]
         serial = [0]
 
+        # self_names (C04): a module also binds - by definition or by `import ... as` - its own module name and the
+        # name of its parent package (`app/logging.py` doing `import logging`). The guards below keep such a name out of
+        # every package that has a sub-module of that name.
+        self_pool = []
+        if self_names and path != "":
+            self_pool.append(base_name(path))
+            if parent_path(path):
+                self_pool.append(base_name(parent_path(path)))
+
+        def pick_name():
+            if self_pool and draw(st.integers(0, 3)) == 3:
+                return draw(st.sampled_from(self_pool))
+            return draw(st.sampled_from(OBJ_NAMES))
+
         def local_stmt():
             serial[0] += 1
-            name = draw(st.sampled_from(OBJ_NAMES))
+            name = pick_name()
             kind = draw(st.sampled_from(("val", "val", "def", "class")))
             if kind == "class":
                 sub = []
                 if class_bodies and draw(st.booleans()):
                     for j in range(draw(st.integers(1, 3))):
-                        sk = draw(st.sampled_from(("val", "def", "class")))
+                        sk = draw(st.sampled_from(("val", "def", "class", "imp") if class_imports and sources else ("val", "def", "class")))
+                        if sk == "imp":
+                            # an import statement in the class body binds class attributes (explicit forms only:
+                            # `import *` is a SyntaxError outside module level)
+                            src = draw(st.sampled_from(sources))
+                            names = importable(src)
+                            asname = draw(st.sampled_from((None, "m", "n", "_o", "K")))
+                            if names and draw(st.integers(0, 3)) > 0:
+                                n = draw(st.sampled_from(names))
+                                sub.append({"t": "from", "mod": src, "level": _pick_level(draw, path, is_pkg[path], src), "names": [[n, asname]]})
+                            else:
+                                sub.append({"t": "import", "mod": src, "as": asname})
+                            continue
                         sn = draw(st.sampled_from(("m", "n", "_o", "__init__" if sk == "def" else "K")))
                         one = {"t": sk, "name": sn, "serial": j}
                         if sk == "def":
@@ -673,7 +715,7 @@ def packages(draw, max_mods: int = 6, max_stmts: int = 6, allow_join: bool = Fal
                     body.append(local_stmt())
                     continue
                 chosen = draw(st.lists(st.sampled_from(names), min_size=1, max_size=3, unique=True))
-                pairs = [[n, draw(st.sampled_from(OBJ_NAMES)) if draw(st.integers(0, 2)) == 2 else None] for n in chosen]
+                pairs = [[n, pick_name() if draw(st.integers(0, 2)) == 2 else None] for n in chosen]
                 body.append({"t": "from", "mod": src, "level": _pick_level(draw, path, is_pkg[path], src), "names": pairs})
             elif weights[2] <= roll < weights[3]:  # from <package> import <submodule> [as z]
                 subs = [s for s in sources if s != ""]
@@ -682,7 +724,7 @@ def packages(draw, max_mods: int = 6, max_stmts: int = 6, allow_join: bool = Fal
                     continue
                 sub = draw(st.sampled_from(subs))
                 pkg = parent_path(sub)
-                asname = draw(st.sampled_from(OBJ_NAMES)) if draw(st.integers(0, 2)) == 2 else None
+                asname = pick_name() if draw(st.integers(0, 2)) == 2 else None
                 level = _pick_level(draw, path, is_pkg[path], pkg)
                 if avoid_dot and pkg == path and level == 1 and not asname:
                     excluded("dot-import-submodule-not-exposed")
@@ -690,7 +732,7 @@ def packages(draw, max_mods: int = 6, max_stmts: int = 6, allow_join: bool = Fal
                 body.append({"t": "from", "mod": pkg, "level": level, "names": [[base_name(sub), asname]]})
             elif weights[3] <= roll < weights[4]:  # import a.b [as z]
                 src = draw(st.sampled_from(sources))
-                asname = draw(st.sampled_from(OBJ_NAMES)) if draw(st.booleans()) else None
+                asname = pick_name() if draw(st.booleans()) else None
                 body.append({"t": "import", "mod": src, "as": asname})
             else:
                 body.append(local_stmt())
@@ -705,7 +747,12 @@ def packages(draw, max_mods: int = 6, max_stmts: int = 6, allow_join: bool = Fal
             for k in range(1, len(body)):
                 if body[k]["t"] in ("val", "from", "import", "all") and body[k - 1]["t"] in ("val", "from", "import", "all"):
                     if draw(st.integers(0, 9)) == 9:
+                        if "same-line-wildcard-override" in avoid and body[k]["t"] == "from" and body[k]["names"] == "*":
+                            excluded("same-line-wildcard-override")  # a wildcard import always starts its line
+                            continue
                         body[k]["join"] = True
+            if any(st_.get("join") for st_ in body):
+                resim(mod)
     return case
 
 
